@@ -132,7 +132,8 @@ struct LaunchRequestHandler {}
 impl Handler<LaunchRequest> for LaunchRequestHandler {
     fn handle(&self, conn: &mut DebugSession, args: LaunchRequestArguments) -> MosResult<()> {
         conn.no_debug = args.no_debug.unwrap_or_default();
-        let cfg = conn.lock_lsp().config().unwrap();
+        // A project without a (valid) mos.toml uses the default configuration, just like the LSP does
+        let cfg = conn.lock_lsp().config().unwrap_or_default();
 
         let root = PathBuf::from(args.workspace.clone());
         let src_path = root.join(PathBuf::from(&cfg.build.entry));
